@@ -264,7 +264,8 @@ var props = map[string]*propDef{
 			"time.Local is UTC (tzdata not read); compression disabled for result blocks in this harness",
 		}, baseAssumptions...),
 		Harnesses: []harnessDef{
-			{Name: "ch.VerifC03Script", Quick: map[string]int{"maxpackets": 2, "maxfail": 0, "maxchain": 3}, Thorough: map[string]int{"maxpackets": 3, "maxfail": 1, "maxchain": 4}},
+			{Name: "ch.VerifC03Script", Quick: map[string]int{"maxpackets": 2, "maxfail": 0, "maxchain": 3}, Thorough: map[string]int{"maxpackets": 3, "maxfail": 1, "maxchain": 4, "cbstyles": 1}},
+			{Name: "ch.VerifC03Script", OnlyTier: "thorough", Thorough: map[string]int{"maxpackets": 2, "maxfail": 1, "maxchain": 3}},
 			{Name: "ch.VerifC03Script", OnlyTier: "thorough", Thorough: map[string]int{"maxpackets": 2, "maxfail": 0, "symversion": 1}},
 		},
 	},
@@ -310,7 +311,7 @@ var props = map[string]*propDef{
 			"the harness connection is goroutine-safe like a net.Conn (separate read/write locks, atomics for what the server has seen)",
 		}, baseAssumptions...),
 		Harnesses: []harnessDef{
-			{Name: "ch.VerifC12Query", Race: true, Repeat: 50, Cfg: noReturn, Witness: 12},
+			{Name: "ch.VerifC12Query", Race: true, Repeat: 50, Cfg: noReturn, Witness: 12, Quick: map[string]int{"policies": 3}, Thorough: map[string]int{"policies": 5}},
 			{Name: "chpool.VerifC12Pool", Race: true, Repeat: 50, Cfg: func(c *sym.Config) { noReturn(c); c.AllowLeak = true }, Witness: 3},
 		},
 	},
